@@ -19,3 +19,9 @@ def _specifier():
 def _name_valid():
     from packaging import utils
     return utils._validate_regex, K.kind_cs
+
+
+@regex_source("NormalizedRx")
+def _name_normalized():
+    from packaging import utils
+    return utils._normalized_regex, K.kind_cs
